@@ -15,7 +15,7 @@
    every one-line limit, every pair of comparators that depend only on names and values. *)
 From V.model Require Import Base Deb822Lex Deb822Parse Grammar Lossy LossySpec Deb822Edit LiveDoc Deb822Wrap WrapSpec ControlSpec.
 From V.model Require RelAcc RelGrammar RelWrap RelWrapSpec.
-From V.proofs Require Import LiveDocP Deb822WrapP Deb822WrapInstP ControlWrapP.
+From V.proofs Require Import LiveDocP Deb822WrapP Deb822WrapInstP ControlWrapP WrapTokP.
 
 (* ---------------------------------------------------------------- the property *)
 (* 1. All clauses, for the repaired code, without a formatter (C07_full is in WrapSpec.v). *)
@@ -437,6 +437,96 @@ Check C07_formatter_idem_needs_premise :
                 std_ws fixed WF.c2 None None (Some (pure_fmt WF.bang)) t1 = Ok t2 /\ text t2 = WF.twice.
 Print Assumptions C07_formatter_idem_needs_premise.
 
+(* 11. Beyond the abstract grammar (no reference to Grammar.v): every tree whose entries consist of
+       tokens -- KEY, COLON, WHITESPACE, VALUE, NEWLINE, INDENT, COMMENT in ANY arrangement: blanks
+       before the colon, CR or LF line ends, blank and comment lines inside a value --, whose paragraphs
+       consist of such entries and of COMMENT / NEWLINE tokens, and whose root consists of such
+       paragraphs and of EMPTY_LINE nodes of tokens (WrapTokP.token_doc; every document the reader
+       returns without an error is one -- not proved here, checked by the streams), no formatter.
+       Entry::wrap_and_sort: no panic; the result is KEY/COLON tokens followed by what rebuild_value
+       emits; the VALUE texts and the COMMENT texts are kept, in order; the key is kept; every INDENT
+       has exactly the requested width; a second application returns the same entry. *)
+Theorem C07_tokens_entry : forall ind iel mll cs,
+  forallb is_tok_elem cs = true -> (entry_n ind cs =? 0)%N = false ->
+  entry_ws fixed ind iel mll None (Node ENTRY cs) = Ok (entry_out ind iel mll cs) /\
+  ktx VALUE (children (entry_out ind iel mll cs)) = ktx VALUE cs /\
+  ktx COMMENT (children (entry_out ind iel mll cs)) = ktx COMMENT cs /\
+  entry_key (entry_out ind iel mll cs) = entry_key (Node ENTRY cs) /\
+  (exists O, children (entry_out ind iel mll cs) = built_of cs ++ O /\ forallb (out_elem (entry_n ind cs)) O = true) /\
+  entry_ws fixed ind iel mll None (entry_out ind iel mll cs) = Ok (entry_out ind iel mll cs).
+Proof.
+  intros ind iel mll cs H Hn. destruct (entry_out_idem ind iel mll cs H) as (A & B & C). destruct (entry_out_shape ind iel mll cs H) as [K S].
+  split; [apply entry_ws_tokens; assumption|]. split; [apply entry_out_texts; [exact H|reflexivity]|]. split; [apply entry_out_texts; [exact H|reflexivity]|].
+  split; [exact K|]. split; [exact S|].
+  change (entry_out ind iel mll cs) with (Node ENTRY (children (entry_out ind iel mll cs))) at 1.
+  rewrite (entry_ws_tokens ind iel mll _ A), C; [reflexivity|]. rewrite B. exact Hn.
+Qed.
+Check C07_tokens_entry : forall ind iel mll cs,
+  forallb is_tok_elem cs = true -> (entry_n ind cs =? 0)%N = false ->
+  entry_ws fixed ind iel mll None (Node ENTRY cs) = Ok (entry_out ind iel mll cs) /\
+  ktx VALUE (children (entry_out ind iel mll cs)) = ktx VALUE cs /\
+  ktx COMMENT (children (entry_out ind iel mll cs)) = ktx COMMENT cs /\
+  entry_key (entry_out ind iel mll cs) = entry_key (Node ENTRY cs) /\
+  (exists O, children (entry_out ind iel mll cs) = built_of cs ++ O /\ forallb (out_elem (entry_n ind cs)) O = true) /\
+  entry_ws fixed ind iel mll None (entry_out ind iel mll cs) = Ok (entry_out ind iel mll cs).
+Print Assumptions C07_tokens_entry.
+
+(* the value tokens of any entry, rebuilt, are read back as tokens that rebuild to the same *)
+Theorem C07_tokens_rebuild_value : forall T kl n iel mll, forallb is_ctok T = true -> stripped T ->
+  exists T2, strip_trailing (filter cfilt (rebuild_value fixed T kl n iel mll)) = elems T2 /\
+             forallb is_ctok T2 = true /\ stripped T2 /\
+             rebuild_value fixed T2 kl n iel mll = rebuild_value fixed T kl n iel mll.
+Proof. exact rebuild_fix. Qed.
+Check C07_tokens_rebuild_value : forall T kl n iel mll, forallb is_ctok T = true -> stripped T ->
+  exists T2, strip_trailing (filter cfilt (rebuild_value fixed T kl n iel mll)) = elems T2 /\
+             forallb is_ctok T2 = true /\ stripped T2 /\
+             rebuild_value fixed T2 kl n iel mll = rebuild_value fixed T kl n iel mll.
+Print Assumptions C07_tokens_rebuild_value.
+
+(* Paragraph::wrap_and_sort on such a paragraph: no panic; the groups "loose tokens (comment lines)
+   in front of an entry + that entry" sorted stably as units, every entry rebuilt, the loose tokens
+   after the last entry last (p_out); a second application changes nothing, for every comparator
+   that answers consistently and does not see the re-layout (esort_ok; by_name is one). *)
+Theorem C07_tokens_paragraph : forall ind iel mll esort cs,
+  forallb (pchild_ok ind) cs = true -> esort_ok ind iel mll esort ->
+  para_ws fixed ind iel mll esort None (Node PARAGRAPH cs) = Ok (Node PARAGRAPH (p_out ind iel mll esort cs)) /\
+  forallb (pchild_ok ind) (p_out ind iel mll esort cs) = true /\
+  para_ws fixed ind iel mll esort None (Node PARAGRAPH (p_out ind iel mll esort cs)) = Ok (Node PARAGRAPH (p_out ind iel mll esort cs)).
+Proof.
+  intros ind iel mll esort cs H Hes. destruct (p_out_idem ind iel mll esort cs H Hes) as [A B].
+  split; [apply para_ws_tokens, H|]. split; [exact A|]. rewrite (para_ws_tokens ind iel mll esort _ A), B. reflexivity.
+Qed.
+Check C07_tokens_paragraph : forall ind iel mll esort cs,
+  forallb (pchild_ok ind) cs = true -> esort_ok ind iel mll esort ->
+  para_ws fixed ind iel mll esort None (Node PARAGRAPH cs) = Ok (Node PARAGRAPH (p_out ind iel mll esort cs)) /\
+  forallb (pchild_ok ind) (p_out ind iel mll esort cs) = true /\
+  para_ws fixed ind iel mll esort None (Node PARAGRAPH (p_out ind iel mll esort cs)) = Ok (Node PARAGRAPH (p_out ind iel mll esort cs)).
+Print Assumptions C07_tokens_paragraph.
+
+(* Deb822::wrap_and_sort on such a document: no panic; the groups "comment lines in front of a
+   paragraph + that paragraph" sorted stably as units, blank lines dropped, one blank line between
+   paragraphs, every paragraph reformatted, every last line terminated (d_out); the result is again
+   such a document; a second application returns the same tree. *)
+Theorem C07_tokens_document : forall ind iel mll psort esort t, token_doc ind t = true ->
+  esort_ok ind iel mll esort -> psort_ok ind iel mll psort esort ->
+  let R := d_out ind iel mll psort esort (children t) in
+  doc_ws fixed psort (Some (para_ws fixed ind iel mll esort None)) t = Ok R /\
+  token_doc ind R = true /\
+  doc_ws fixed psort (Some (para_ws fixed ind iel mll esort None)) R = Ok R.
+Proof. exact token_doc_ws. Qed.
+Check C07_tokens_document : forall ind iel mll psort esort t, token_doc ind t = true ->
+  esort_ok ind iel mll esort -> psort_ok ind iel mll psort esort ->
+  let R := d_out ind iel mll psort esort (children t) in
+  doc_ws fixed psort (Some (para_ws fixed ind iel mll esort None)) t = Ok R /\
+  token_doc ind R = true /\
+  doc_ws fixed psort (Some (para_ws fixed ind iel mll esort None)) R = Ok R.
+Print Assumptions C07_tokens_document.
+
+Theorem C07_tokens_by_name : forall ind iel mll, esort_ok ind iel mll (Some by_name).
+Proof. exact by_name_esort_ok. Qed.
+Check C07_tokens_by_name : forall ind iel mll, esort_ok ind iel mll (Some by_name).
+Print Assumptions C07_tokens_by_name.
+
 (* ---------------------------------------------------------------- non-vacuity *)
 Module Examples.
   Import Coq.Strings.String.
@@ -572,4 +662,33 @@ Description: x
   y
 ").
   Proof. vm_compute. reflexivity. Qed.
+
+  (* an error-free text outside the abstract grammar: blanks before the colon, CR line ends, a comment
+     line and a blank line inside a value, no space after a colon, comments at every level: the reader's
+     tree is a token document, and the reformatting (fields by name) is computed *)
+  Definition cr : str := [13%N].
+  Definition exotic : str := (s "Zz : b" ++ cr ++ s "  c" ++ cr ++ s "
+# x
+B:
+ #c
+ 
+	d
+Aa:x
+
+# t")%list.
+  Example exotic_is_token_doc :
+    exists t, from_str exotic = Ok t /\ token_doc (Spaces 2) t = true /\
+      rmap text (doc_ws fixed None (Some (para_ws fixed (Spaces 2) true (Some 10%N) (Some by_name) None)) t) =
+      Ok (s "Zz:
+  b" ++ cr ++ s "  c
+
+# x
+Aa:x
+B:
+  #c
+  
+  d
+# t
+")%list.
+  Proof. eexists. split; [vm_compute; reflexivity|]. split; vm_compute; reflexivity. Qed.
 End Examples.
